@@ -313,6 +313,74 @@ func main() {
 					"parties": ids(all), "senderIsPrev": bt.IsPrev == nil || bt.IsPrev[m.from]})
 			}
 		}
+		// ---- consistent strategies: the deviator deals a DIFFERENT value consistently (verification vector entry 0 times g^delta,
+		// every share coordinate plus delta: the first coefficient of every row is 1 in the threshold programmes used here), so
+		// that share verification passes and only the protocol-level checks on entry 0 can object ----
+		type strat struct {
+			round   int
+			vvClass string
+			shClass string
+		}
+		strats := map[string][]strat{
+			"hjky":         {{1, "/verificationVector/verification_vector/data[]", "/zeroShare/value[]"}},
+			"lindell22":    {{1, "/zeroR1/verificationVector/verification_vector/data[]", "/zeroR1/zeroShare/value[]"}},
+			"redist":       {{2, "/NextVerificationVectorContribution/verification_vector/data[]", "/NextShareContribution/value[]"}},
+			"redistAnchor": {{2, "/NextVerificationVectorContribution/verification_vector/data[]", "/NextShareContribution/value[]"}},
+			"redistNew":    {{2, "/NextVerificationVectorContribution/verification_vector/data[]", "/NextShareContribution/value[]"}},
+		}
+		for _, stg := range strats[sc.Name] {
+			for _, dev := range all {
+				if dev == b.Trusted || (b.IsPrev != nil && !b.IsPrev[dev]) {
+					continue
+				}
+				caseNo++
+				if caseNo < *startAt {
+					continue
+				}
+				delta := toy.FromInt(1 + uint64(caseNo)%5)
+				bt := sc.Build(scen.NewStreams(sd))
+				touched := false
+				tam := &proto.Tamper{Round: stg.round, From: dev, All: func(to ID, kind string, data []byte) ([]byte, bool) {
+					t, err := proto.Parse(data)
+					if err != nil {
+						return data, false
+					}
+					for _, l := range t.Leaves() {
+						switch {
+						case l.Class == stg.vvClass && strings.HasSuffix(l.Path, "data[0]"):
+							e, err := toy.NewGroup().FromBytes(l.Bytes)
+							if err == nil {
+								l.SetBytes(e.Op(toy.NewGroup().ScalarBaseOp(delta)).Bytes())
+								touched = true
+							}
+						case l.Class == stg.shClass:
+							var s toy.Scalar
+							if s.UnmarshalBinary(l.Bytes) == nil {
+								nb, _ := s.Add(delta).MarshalBinary()
+								l.SetBytes(nb)
+								touched = true
+							}
+						}
+					}
+					return t.Encode(), false
+				}}
+				if *intent != "" {
+					w.Emit(map[string]any{"a": "intent", "case": caseNo, "k": fmt.Sprintf("%s:r%d:strategy:redeal", sc.Name, stg.round), "proto": sc.Name, "round": stg.round, "kind": "*", "from": uint64(dev), "to": 0, "leaf": "/strategy", "path": "/strategy", "op": "redeal"})
+					w.Flush()
+				}
+				res := proto.Run(bt.Parties, tam, nil)
+				comp := []ID{}
+				for _, id := range res.Completed {
+					if id != dev {
+						comp = append(comp, id)
+					}
+				}
+				w.Emit(map[string]any{"a": "tamper", "case": caseNo, "k": fmt.Sprintf("%s:r%d:strategy:redeal", sc.Name, stg.round), "proto": sc.Name, "round": stg.round, "kind": "b",
+					"from": uint64(dev), "to": 0, "leaf": "/strategy", "path": "/strategy", "op": "redeal", "changed": touched,
+					"rejects": rejectsJ(res.Rejects), "completed": ids(comp), "out": bt.Outputs(comp), "stop": res.StopRound,
+					"parties": ids(all), "senderIsPrev": bt.IsPrev == nil || bt.IsPrev[dev]})
+			}
+		}
 	}
 	fmt.Printf("events=%d\n", w.N)
 }
